@@ -96,10 +96,16 @@ def rule_truncate(ctx, rule='C11.TRUNCATE'):
               witness=wit, loc=ctx.loc(fb, fb.node))
     n += 1
     # pointers: backup_fs is called with the new (lower) height on every backup flush
-    f = ctx.func('db', 'DB.backup_fs')
-    cs = q.calls_resolving_to(ctx, fb, f)
-    ok = len(cs) == 1 and norm(cs[0].args[0]) == f'{fd}.state.height' and \
-        pr.path_avoiding(cfg, [cfg.entry], [cfg.exit], {cfg.node(q.stmt(cs[0]))}) is None
+    f = ctx.func('db', 'DB.backup_fs', required=False)
+    if f is None:
+        # merged into flush_backup: the pointer assignment itself
+        sts = [s_ for s_ in fb.own_nodes() if isinstance(s_, ast.Assign) and len(s_.targets) == 1 and ctx.res.canon(s_.targets[0], fb) == 'self.fs_height']
+        ok = len(sts) == 1 and norm(sts[0].value) == f'{fd}.state.height' and \
+            pr.path_avoiding(cfg, [cfg.entry], [cfg.exit], {cfg.node(sts[0])}) is None
+    else:
+        cs = q.calls_resolving_to(ctx, fb, f)
+        ok = len(cs) == 1 and norm(cs[0].args[0]) == f'{fd}.state.height' and \
+            pr.path_avoiding(cfg, [cfg.entry], [cfg.exit], {cfg.node(q.stmt(cs[0]))}) is None
     ctx.check(ok, rule, ctx.key(fb, None, 'backup_fs on every backup flush'),
               'every backup flush calls backup_fs with the new (lower) height',
               'a backup flush can complete without backup_fs(new height)', loc=ctx.loc(fb, fb.node))
@@ -230,9 +236,10 @@ def rule_range(ctx):
                 pos = True
                 seen = 0
                 for pth in P.paths(g.node.body):
-                    evs = [env_ for st_, env_ in pth.events if st_ is q.stmt(cc)]
-                    if not evs:
+                    e_at = pth.env_at(q.stmt(cc))       # whether the reply is merged in place or bound to a local first
+                    if e_at is None:
                         continue
+                    evs = [e_at]
                     seen += 1
                     hexpr = P.subst(cc.args[1], evs[0])
                     cpx = P.subst(cc.args[0], evs[0])
